@@ -555,7 +555,9 @@ def acceptable_results(ref, infl, key, acked):
         acc |= ref.results_candidates(key)
     elif not acc:
         acc = {None}
-    # never committed + interrupted store carrying results: visible means complete (no None)
+    if key in infl.noresult_keys:
+        acc.add(None)      # an interrupted store WITHOUT results may be what committed the key
+    # never committed + only interrupted stores carrying results: visible means complete
     return acc
 
 
@@ -568,6 +570,7 @@ class Infl:
         self.ops = [o for o in (ops or []) if o is not None]
         self.keys = {}             # key -> kind of the interrupted transaction
         self.result_jsons = {}      # key -> set of results JSON of interrupted stores
+        self.noresult_keys = set()  # keys with an interrupted store that carries NO results
         self.annot_alts = {}       # name -> set of texts
         self.logs = []             # (sev, path, msg)
         self.datasets = set()
@@ -584,6 +587,9 @@ class Infl:
                 e = POOL[o['model']]
                 self.keys[e['key']] = k
                 self.datasets.add(e['dataset'])
+                if k == 'db_store_model' or (k in ('store', 'store_input', 'store_final')
+                                             and not e['has_results']):
+                    self.noresult_keys.add(e['key'])
                 if k in ('store', 'store_input', 'store_final'):
                     if e['has_results']:
                         self.result_jsons.setdefault(e['key'], set()).add(e['results_json'])
@@ -620,6 +626,12 @@ def check_state(root, ref, inflight, V, where, wl_models, do_progress=True):
 
     pending_sig = ('committed-unretrievable/PendingTransactionError/'
                    'later-transaction-in-flight-on-same-key')
+
+    def is_f3(key):
+        """Known finding F3: an interrupted transaction of this key left its PENDING marker."""
+        return key in infl.keys and os.path.exists(
+            os.path.join(str(db.path), key, '.pharmpy', 'PENDING'))
+
     # ---- R1/R2 by key
     for idx in wl_models:
         e = POOL[idx]
@@ -630,7 +642,7 @@ def check_state(root, ref, inflight, V, where, wl_models, do_progress=True):
             me = db.retrieve_model_entry(ModelHash(key))
         except Exception as ex:
             if acked:
-                if isinstance(ex, _P['Pending']) and key in infl.keys:
+                if isinstance(ex, _P['Pending']) and is_f3(key):
                     V.viol(pending_sig,
                            f'{where}: {e["name"]} was committed earlier; an interrupted '
                            f'{infl.keys[key]} on the same key left PENDING and the entry is refused')
@@ -686,7 +698,7 @@ def check_state(root, ref, inflight, V, where, wl_models, do_progress=True):
             c_, plain = cx(name)
             me = c_.retrieve_model_entry(plain)
         except Exception as ex:
-            if isinstance(ex, _P['Pending']) and key in infl.keys:
+            if isinstance(ex, _P['Pending']) and is_f3(key):
                 V.viol(pending_sig,
                        f'{where}: name {name!r} committed earlier; interrupted {infl.keys[key]} on the '
                        f'same key left PENDING')
@@ -719,7 +731,7 @@ def check_state(root, ref, inflight, V, where, wl_models, do_progress=True):
             if ref.names.get(n2) != key and infl.names.get(n2) != key:
                 V.viol('name-bound-to-wrong-key', f'{where}: retrieve_name({key[:8]}) = {n2!r}')
         except Exception as ex:
-            if isinstance(ex, _P['Pending']) and key in infl.keys:
+            if isinstance(ex, _P['Pending']) and is_f3(key):
                 V.viol(pending_sig, f'{where}: retrieve_key({name!r}) refused: PENDING left by an '
                                     f'interrupted {infl.keys[key]}')
             else:
@@ -903,6 +915,7 @@ class OneShotFault:
         self.k = k
         self.short = short
         self.fired = None
+        self.fired_during = None
         self.enospc = False
 
     def fs_op(self, fs, idx, pid, kind, path, nbytes):
@@ -967,6 +980,18 @@ def run_excpoints(cfg, tape, want_trace=False):
                         V.viol(f'fault-free-operation-failed/{op["kind"]}/{type(ex).__name__}',
                                f'{fmt_op(op)} raised {ex!r} without any fault')
                         return None
+                    hit_now = fault.fired is not None and fault.fired_during is None
+                    if hit_now:
+                        fault.fired_during = op          # the operation that met the injected error
+                    elif not (isinstance(ex, _P['Pending']) and op.get('model') is not None and any(
+                            f.get('model') is not None and POOL[f['model']]['key'] == POOL[op['model']]['key']
+                            for f in failed)):
+                        # a LATER operation fails although nothing was injected into it: only a
+                        # PENDING marker left by the interrupted transaction of the same key is a
+                        # known reason (finding F3)
+                        V.viol(f'operation-fails-after-earlier-fault/{op["kind"]}/{type(ex).__name__}',
+                               f'{fmt_op(op)} raised {ex!r}; the injected error had hit '
+                               f'{fmt_op(fault.fired_during)} earlier')
                     failed.append(op)
                     if op['kind'] in ('store', 'store_input', 'store_final'):
                         maybe[store_name(op)] = POOL[op['model']]['key']
